@@ -119,10 +119,11 @@ type Sim struct {
 	files     map[string]bool
 	resetupAt map[string]time.Time
 
-	WorkloadOn  atomic.Bool
-	ResetupOn   atomic.Bool
-	ResetupTime time.Duration
-	PumpHook    func() // called once per pump step outside all mutexes
+	WorkloadOn       atomic.Bool
+	ResetupOn        atomic.Bool
+	ResetupTime      time.Duration
+	PumpHook         func() // called once per pump step outside all mutexes
+	PumpHookInternal func()
 }
 
 // AllHosts returns HA + cascade hosts.
@@ -433,6 +434,9 @@ func (s *Sim) pump() {
 			s.pollFiles()
 			if s.PumpHook != nil {
 				s.PumpHook()
+			}
+			if s.PumpHookInternal != nil {
+				s.PumpHookInternal()
 			}
 		}
 	}
